@@ -1,0 +1,25 @@
+//go:build verif
+
+package iscp
+
+import "github.com/aptpod/iscp-go/transport"
+
+// VerifSentStorage exposes the unexported sent-storage interface to the
+// verification harness (build tag verif only).
+type VerifSentStorage = sentStorage
+
+// VerifRegisterDialer registers a custom dialer for a transport name.
+func VerifRegisterDialer(tr TransportName, f func() transport.Dialer) {
+	customDialFuncs[tr] = f
+}
+
+// VerifNewInmemSentStorage returns the payload-keeping in-memory storage.
+func VerifNewInmemSentStorage() VerifSentStorage { return newInmemSentStorage() }
+
+// VerifNewInmemSentStorageNoPayload returns the default in-memory storage.
+func VerifNewInmemSentStorageNoPayload() VerifSentStorage { return newInmemSentStorageNoPayload() }
+
+// VerifWithSentStorage injects a sent storage into the connection.
+func VerifWithSentStorage(s VerifSentStorage) ConnOption {
+	return func(c *ConnConfig) { c.sentStorage = s }
+}
